@@ -182,6 +182,8 @@ type State struct {
 	splitCap        int // overrides Config.SplitCap when > 0 (vhSplitCap)
 	concreteClock   bool
 	noAutoFire      bool
+	handoff         bool // vhHandoff: an Unlock yields the processor to the next other goroutine (one legal schedule among many)
+	yieldTo         int  // coroutine index + 1 to switch to after the current instruction (0: none)
 	crcMismatch     bool
 	appendHook      func(ex *Exec, st *State, newCap int)
 }
